@@ -128,6 +128,10 @@ where
                 inner_product(polys, x1)
             })
             .collect::<Vec<_>>();
+        #[cfg(feature = "verif-hooks")]
+        verif_hooks::on_open_q_polys(
+            &q_polys.iter().map(|p| p.values.as_slice()).collect::<Vec<_>>(),
+        );
 
         let f_poly = {
             let f_polys = point_sets
@@ -146,6 +150,8 @@ where
                 .collect::<Vec<_>>();
             inner_product(&f_polys, powers(x2))
         };
+        #[cfg(feature = "verif-hooks")]
+        verif_hooks::on_open_f_poly(&f_poly.values);
 
         let f_com = Self::commit(params, &f_poly);
         transcript.write(&f_com).map_err(|_| Error::OpeningError)?;
@@ -174,12 +180,16 @@ where
             inner_product(&polys, powers)
         };
         let v = eval_polynomial(&final_poly, x3);
+        #[cfg(feature = "verif-hooks")]
+        verif_hooks::on_open_final(&final_poly.values, &v);
 
         let pi = {
             let pi_poly = Polynomial {
                 values: kate_division(&(&final_poly - v).values, x3),
                 _marker: PhantomData,
             };
+            #[cfg(feature = "verif-hooks")]
+            verif_hooks::on_open_pi_poly(&pi_poly.values);
             Self::commit(params, &pi_poly)
         };
 
